@@ -198,6 +198,41 @@ pub fn ep_twin_prelude(rng: &mut Rng) -> Vec<HStep> {
     vec![]
 }
 
+/// A king that has walked up to the other side's unmoved king and rooks: castling rights intact,
+/// castling path empty, the invading king beside the path (the only attacker of a square the
+/// castling king would cross or land on). Searched with the castler to move and with the invader
+/// to move, so that a castling move that is not legal would show as an announced move or inside
+/// a printed line.
+pub fn castle_invader_prelude(rng: &mut Rng) -> Vec<HStep> {
+    use chess_oracle as o;
+    let step = |r: Root, l: u8| HStep { root: r, limit: Some(l), stop_at: 0, clear_table: false };
+    for _ in 0..400 {
+        let fam = if rng.chance(1, 2) { gen::Family::Castle } else { gen::Family::Intruder };
+        let Some(p) = gen::family_nth(fam, rng.next() % gen::family_size(fam)) else { continue };
+        // the invading king must stand on the second/seventh rank next to the castling path
+        let castler_white = p.castle[0] || p.castle[1];
+        let ek = (0..64u8).find(|&s| p.b[s as usize] == o::mk(o::KING, !castler_white));
+        let Some(ek) = ek else { continue };
+        let want_rank = if castler_white { 1 } else { 6 };
+        if o::rank_of(ek) != want_rank || matches!(o::file_of(ek), 3 | 4 | 5) {
+            continue;
+        }
+        let mut steps = vec![];
+        let d = 2 + rng.below(3) as u8;
+        steps.push(step(Root { fen: fen::render6(&p, 0, 1), moves: vec![] }, d));
+        // the same placement with the other side to move (if that is a sane position)
+        let mut q = p.clone();
+        q.white_to_move = !q.white_to_move;
+        q.ep = None;
+        if q.is_sane() {
+            steps.push(step(Root { fen: fen::render6(&q, 0, 1), moves: vec![] }, d + 1));
+        }
+        steps.push(step(Root { fen: fen::render6(&p, 0, 1), moves: vec![] }, (d - 1).max(1)));
+        return steps;
+    }
+    vec![]
+}
+
 /// Same board, same mover, different castling/en-passant state: both kings and all four rooks at
 /// home (so every subset of rights is possible), an en-passant capture available on a chosen
 /// file, a few extra pieces. The position with the capture is searched first, then twins whose
@@ -482,7 +517,8 @@ pub fn make_history(corpus: &[String], rng: &mut Rng, len: usize, max_depth: u8)
     }
     let moves = game_moves(&spec);
     let mut steps = vec![];
-    match rng.below(9) {
+    match rng.below(10) {
+        9 => steps.extend(castle_invader_prelude(rng)),
         0 => steps.extend(dead_end_prelude(rng)),
         1 | 2 => steps.extend(doomed_prelude(rng)),
         3 | 4 => steps.extend(doomed_line_prelude(rng)),
